@@ -412,3 +412,19 @@ Proof.
   destruct (t - u <? -9223372036854775808) eqn:E1; [lia|].
   destruct (9223372036854775807 <? t - u) eqn:E2; lia.
 Qed.
+
+(* | of two values with disjoint bits is + (big-endian assembly of bytes) *)
+Lemma lor_disjoint_add a b k : 0 <= k -> a mod 2 ^ k = 0 -> 0 <= b < 2 ^ k -> Z.lor a b = a + b.
+Proof.
+  intros Hk Ha Hb.
+  assert (Hl : Z.land a b = 0).
+  { apply Z.bits_inj'. intros n Hn. rewrite Z.land_spec, Z.bits_0.
+    destruct (Z_lt_le_dec n k) as [Hlt|Hge].
+    - assert (Z.testbit a n = false) as ->; [|reflexivity].
+      rewrite <- (Z.mod_pow2_bits_low a k n) by lia. rewrite Ha. apply Z.bits_0.
+    - assert (Z.testbit b n = false) as ->; [|apply andb_false_r].
+      destruct (Z.eq_dec b 0) as [->|Hb0]. apply Z.bits_0.
+      apply Z.bits_above_log2; [lia|].
+      assert (Z.log2 b < k) by (apply Z.log2_lt_pow2; lia). lia. }
+  rewrite <- Z.lxor_lor by assumption. symmetry. apply Z.add_nocarry_lxor. assumption.
+Qed.
